@@ -272,45 +272,74 @@ theorem c09_eos_synchronize_twice_no_primitives (b : Bool) : (eSyncOps (eSyncOps
     synchronises first (`syncFirst`, the repaired source).  For the source as found the hypothesis
     is needed: `c09_integrate_reverse_unsynchronized_flips_dt`. -/
 theorem c09_whfast_integrate_dt_only_when_synchronized (c : Config) (hk : c.keep = false)
-    (n k : Nat) (exact reverse syncFirst : Bool) (f : Flags)
+    (n k : Nat) (exact reverse syncFirst force rc : Bool) (f : Flags)
     (h : reverse = true → syncFirst = true ∨ f.isSync = true) :
-    dtOk (fun f => (stepOps c f).2) (fun f => (syncOps c f).2) Flags.isSync
-      (integratePlan n k exact reverse syncFirst) f = true :=
-  dtOk_plan _ _ _ (syncOps_nokeep_isSync c hk) n k exact reverse syncFirst f h
+    dtOk (fun f => (stepOps c f).2) (fun f => (syncOps c f).2) (fun f => (syncOps c f).2) Flags.isSync
+      (integratePlan n k exact reverse syncFirst force rc) f = true :=
+  dtOk_plan _ _ _ _ force (fun _ => syncOps_nokeep_isSync c hk)
+    (fun g => by cases force <;> exact syncOps_nokeep_isSync c hk g) n k exact reverse syncFirst rc f h
+
+/-- **Any `keep_unsynchronized`, repaired source** (`force = true`: every synchronize that precedes
+    an assignment to `dt` — before the shortened last step, before a restore that changes `dt`,
+    before the sign change — ignores keep_unsynchronized,
+    fixes/C09-exact-finish-keep-unsynchronized.diff): every assignment to `dt` happens with
+    `is_synchronized = 1`, also with `keep_unsynchronized = 1`. -/
+theorem c09_whfast_integrate_dt_only_when_synchronized_repaired (c : Config)
+    (n k : Nat) (exact reverse syncFirst rc : Bool) (f : Flags)
+    (h : reverse = true → syncFirst = true ∨ f.isSync = true) :
+    dtOk (fun f => (stepOps c f).2) (fun f => (syncOps c f).2)
+      (fun f => (syncOps { c with keep := false } f).2) Flags.isSync
+      (integratePlan n k exact reverse syncFirst true rc) f = true :=
+  dtOk_plan _ _ _ _ true (fun hf => by cases hf)
+    (fun g => syncOps_nokeep_isSync { c with keep := false } rfl g) n k exact reverse syncFirst rc f h
+
+/-- **keep_unsynchronized = 1, source as found**: with at least one step before a shortened
+    last step, `dt = tmax - t` is assigned while the internal state is unsynchronised (the
+    synchronize restored `p_jh`): the pending half drift is then completed with the shortened `dt`.
+    The C API allows this silently (only the Python `getSimulation(mode='exact')` guards it) —
+    finding C09:exact-finish-with-keep-unsynchronized, exhibited on the real code by the search. -/
+theorem c09_whfast_integrate_keep_unsynchronized_assigns_dt_unsynchronized (c : Config)
+    (hk : c.keep = true) (hs : c.safe = false) (n k : Nat) (exact syncFirst rc : Bool) (f : Flags) :
+    dtOk (fun f => (stepOps c f).2) (fun f => (syncOps c f).2) (fun f => (syncOps c f).2) Flags.isSync
+      (integratePlan (n + 1) (k + 1) exact false syncFirst false rc) f = false :=
+  dtOk_keep_false c hk hs n k exact syncFirst rc f
 
 theorem c09_saba_integrate_dt_only_when_synchronized (c : SabaConfig) (hk : c.keep = false)
-    (n k : Nat) (exact reverse syncFirst : Bool) (f : Flags)
+    (n k : Nat) (exact reverse syncFirst force rc : Bool) (f : Flags)
     (h : reverse = true → syncFirst = true ∨ f.isSync = true) :
-    dtOk (fun f => (sabaStepOps c f).2) (fun f => (sabaSyncOps c f).2) Flags.isSync
-      (integratePlan n k exact reverse syncFirst) f = true := by
-  refine dtOk_plan _ _ _ (fun g => ?_) n k exact reverse syncFirst f h
-  unfold sabaSyncOps
-  cases hg : g.isSync <;> simp [hk, hg]
+    dtOk (fun f => (sabaStepOps c f).2) (fun f => (sabaSyncOps c f).2) (fun f => (sabaSyncOps c f).2)
+      Flags.isSync (integratePlan n k exact reverse syncFirst force rc) f = true := by
+  have hsync : ∀ g : Flags, (sabaSyncOps c g).2.isSync = true := by
+    intro g; unfold sabaSyncOps; cases hg : g.isSync <;> simp [hk, hg]
+  exact dtOk_plan _ _ _ _ force (fun _ => hsync) (fun g => by cases force <;> exact hsync g) n k exact
+    reverse syncFirst rc f h
 
 theorem c09_mercurius_integrate_dt_only_when_synchronized (safe : Bool)
-    (n k : Nat) (exact reverse syncFirst : Bool) (f : MFlags)
+    (n k : Nat) (exact reverse syncFirst force rc : Bool) (f : MFlags)
     (h : reverse = true → syncFirst = true ∨ f.isSync = true) :
-    dtOk (fun f => (mStepOps safe f).2) (fun f => (mSyncOps f).2) MFlags.isSync
-      (integratePlan n k exact reverse syncFirst) f = true := by
-  refine dtOk_plan _ _ _ (fun g => ?_) n k exact reverse syncFirst f h
-  unfold mSyncOps
-  cases hg : g.isSync <;> simp [hg]
+    dtOk (fun f => (mStepOps safe f).2) (fun f => (mSyncOps f).2) (fun f => (mSyncOps f).2) MFlags.isSync
+      (integratePlan n k exact reverse syncFirst force rc) f = true := by
+  have hsync : ∀ g : MFlags, (mSyncOps g).2.isSync = true := by
+    intro g; unfold mSyncOps; cases hg : g.isSync <;> simp [hg]
+  exact dtOk_plan _ _ _ _ force (fun _ => hsync) (fun g => by cases force <;> exact hsync g) n k exact
+    reverse syncFirst rc f h
 
 theorem c09_eos_integrate_dt_only_when_synchronized (safe : Bool)
-    (n k : Nat) (exact reverse syncFirst : Bool) (b : Bool)
+    (n k : Nat) (exact reverse syncFirst force rc : Bool) (b : Bool)
     (h : reverse = true → syncFirst = true ∨ b = true) :
-    dtOk (fun b => (eStepOps safe b).2) (fun b => (eSyncOps b).2) id
-      (integratePlan n k exact reverse syncFirst) b = true := by
-  refine dtOk_plan _ _ _ (fun g => ?_) n k exact reverse syncFirst b h
-  cases g <;> rfl
+    dtOk (fun b => (eStepOps safe b).2) (fun b => (eSyncOps b).2) (fun b => (eSyncOps b).2) id
+      (integratePlan n k exact reverse syncFirst force rc) b = true := by
+  have hsync : ∀ g : Bool, (eSyncOps g).2 = true := by intro g; cases g <;> rfl
+  exact dtOk_plan _ _ _ _ force (fun _ => hsync) (fun g => by cases force <;> exact hsync g) n k exact
+    reverse syncFirst rc b h
 
 /-- the source as found (`syncFirst = false`): reversing the direction of integration on an
     unsynchronised simulation assigns `dt` while a half step is pending — finding
     C09:integrate-reverse-unsynchronized, exhibited on the real code by the search -/
-theorem c09_integrate_reverse_unsynchronized_flips_dt (c : Config) (n k : Nat) (exact : Bool)
+theorem c09_integrate_reverse_unsynchronized_flips_dt (c : Config) (n k : Nat) (exact rc : Bool)
     (f : Flags) (hf : f.isSync = false) :
-    dtOk (fun f => (stepOps c f).2) (fun f => (syncOps c f).2) Flags.isSync
-      (integratePlan n k exact true false) f = false := by
+    dtOk (fun f => (stepOps c f).2) (fun f => (syncOps c f).2) (fun f => (syncOps c f).2) Flags.isSync
+      (integratePlan n k exact true false false rc) f = false := by
   simp [integratePlan, dtOk, hf]
 
 /-! ### the hypotheses are satisfiable: a 1-D oscillator, integer time -/
